@@ -64,6 +64,12 @@ def fields(nrows, ncols, seed, few=False):
     f.append(("tenths", [0.1 * (c + 1) for c in range(ntot)], -999.0, 0))
     if not few:
         f.append(("big-int", [float(2 ** 24 + 1 + 2 * c) for c in range(ntot)], -999.0, 0))
+    # the same kind of field held in other storage types (the sums must still be the float64 sums of the values):
+    # a boolean mask, small unsigned / signed integers whose sums leave the type's range, single precision
+    f.append(("mask:dtype=bool", [float((c + seed) % 3 != 0) for c in range(ntot)], None, 0))
+    f.append(("ones200:dtype=uint8", [200.0] * ntot, None, 0))
+    f.append(("neg100:dtype=int8", [-100.0 + (c % 2) for c in range(ntot)], None, 0))
+    f.append(("tenths:dtype=float32", [float(np.float32(0.1 * (c + 1))) for c in range(ntot)], None, 0))
     if few and ntot > 64:
         # long strips: a count can reach a typical 8-bit no-data marker
         f.append(("default:fdnodata=255", None, None, 255))
@@ -105,8 +111,14 @@ def check_grid(ctx, nrows, ncols, codes, seed, few=False, strip=None):
             own = [1.0] * ntot
             nodata_exp = None
         else:
-            toacc = Grid("acc", ncols, nrows, dtype=np.float64, nodata=fnodata)
-            toacc.data = np.array(fvals).reshape(nrows, ncols)
+            fdt = np.dtype(fname.split("dtype=")[1]) if "dtype=" in fname else np.dtype(np.float64)
+            if fnodata is None:
+                toacc = Grid("acc", ncols, nrows, dtype=fdt.type)
+            else:
+                toacc = Grid("acc", ncols, nrows, dtype=fdt.type, nodata=fnodata)
+            toacc.data = np.array(fvals).astype(fdt).reshape(nrows, ncols)
+            if not np.array_equal(toacc.data.astype(np.float64).ravel(), np.array(fvals)):
+                raise RuntimeError("harness: field %s not representable in %s" % (fname, fdt))
             own = fvals
         fd_before = fd.data.copy()
         ta_before = None if toacc is None else toacc.data.copy()
